@@ -1,5 +1,8 @@
 /-
-  ZapProofs.Props.ReadWindows: a regenerated-fact obligation of the layout properties (C04, C08, C09).
+  ZapProofs.Props.ReadWindows: a regenerated-fact obligation of the layout properties (C04, C08, C09)
+  and of the doc-value readers of an opened file (C03: `getSectionDvOffsets`, `loadFieldDocValueReader`,
+  `loadDvChunk` are among the listed calls; a field whose block straddles offset 2^14 or 2^21 needs the
+  full window).
 
   Every varint of the v16 layout may be up to `binary.MaxVarintLen64` bytes long.  The readers decode
   them with `binary.Uvarint(mem[lo:hi])`; a window `[lo, hi)` that is shorter than that (a smaller
